@@ -190,8 +190,61 @@ pub fn gen(tier: &str, seed: u64, outdir: &str) {
         push_samples(&mut cs, &y, &xo, &dx, "samples/malformed-stream");
     }
 
+    // ---- coverage audit: the ends of the stated ranges at EVERY tier (own random stream: the cases above are unchanged).
+    //      End points on +-1e3 in both orientations, a one-ulp interval, first / last panel count, every level budget up to 20, monomials of
+    //      degree 10..19 under Romberg, sample arrays of the last admissible length, abscissae over the whole range / repeated / all equal / descending
+    {
+        let mut r = Rng::new(seed ^ 0xA0D17_C07);
+        let nd = |x: f64| f64::from_bits(x.to_bits() - 1);
+        let corners: [(f64, f64); 8] = [(-1e3, 1e3), (1e3, -1e3), (0.0, 1.0), (999.0, 1e3), (-999.5, -1e3), (1e3, nd(1e3)), (-1e3, -1e3), (1e3, 0.0)];
+        for (ci, &(a, b)) in corners.iter().enumerate() {
+            for &n in [1usize, 4095, 4096].iter() {
+                let d = if n == 1 { 1 } else { r.below(7) as usize }; let p = coeffs(&mut r, d);
+                push_trapz(&mut cs, &p, a, b, n, "audit/trapz-corner");
+            }
+            for &d in [0usize, 9, 10, 19].iter() {
+                let mut p = vec![0.0; d + 1]; p[d] = 1.0;
+                let res = catch(|| quad5(|x| horner(&p, x), a, b)).map(|v| vec![v]);
+                cs.push(app("CQuad5", vec![fl(&p), Tm::F(a), Tm::F(b), outcome_list(&res)]), "audit/quad5-corner", d >= 1);
+            }
+            let k = 2 + ci; let d = r.below(2 * k as u64) as usize; let p = coeffs(&mut r, d);
+            push_romberg(&mut cs, &p, a, b, if ci % 2 == 0 { 0.0 } else { 1e-3 }, k, "audit/romberg-corner");
+        }
+        // Romberg: monomials of degree 10..19 with the smallest exact budget, and every budget 11..20 (the largest ones on one interval each)
+        for d in 10..=19usize {
+            let mut p = vec![0.0; d + 1]; p[d] = 1.0;
+            let (a, b) = if d % 2 == 0 { (endpoint(&mut r), endpoint(&mut r)) } else { corners[d % 5] };
+            push_romberg(&mut cs, &p, a, b, 0.0, (d + 2) / 2, "audit/romberg-monomial-10..19");
+        }
+        for nmax in 11..=20usize {
+            let d = (2 * nmax - 1).min(19); let p = coeffs(&mut r, d);
+            let (a, b) = (endpoint(&mut r), endpoint(&mut r));
+            push_romberg(&mut cs, &p, a, b, if nmax % 2 == 0 { 0.0 } else { 10f64.powi(-(3 + r.below(10) as i32)) }, nmax, "audit/romberg-budget-11..20");
+        }
+        // samples
+        for (k, &len) in [2usize, 2, 3, 5, 64, 10000].iter().enumerate() {
+            let y: Vec<f64> = (0..len).map(|_| r.uniform(-5.0, 5.0)).collect();
+            let mut x: Vec<f64> = (0..len).map(|_| r.uniform(-1e3, 1e3)).collect();
+            x.sort_by(|p, q| p.partial_cmp(q).unwrap());
+            x[0] = -1e3; x[len - 1] = 1e3;
+            push_samples(&mut cs, &y, &Some(x.clone()), &None, "audit/samples-whole-range");
+            if k % 2 == 0 && len < 10000 {
+                let mut xr = x.clone(); xr.reverse();
+                push_samples(&mut cs, &y, &Some(xr), &None, "audit/samples-descending");
+                push_samples(&mut cs, &y, &Some(vec![x[0]; len]), &None, "audit/samples-equal-abscissae");
+                let xd: Vec<f64> = (0..len).map(|i| x[(i / 2) * 2 % len]).collect();
+                push_samples(&mut cs, &y, &Some(xd), &None, "audit/samples-repeated-abscissae");
+            }
+        }
+        if thorough {
+            let len = 10000; let y: Vec<f64> = (0..len).map(|_| r.uniform(-5.0, 5.0)).collect();
+            push_samples(&mut cs, &y, &None, &Some(r.uniform(0.0, 1.0)), "audit/samples-whole-range");
+            push_samples(&mut cs, &y, &None, &None, "audit/samples-whole-range");
+        }
+    }
+
     cs.write(outdir, if thorough { 60 } else { 150 },
-             "trapz: every n in 0..=40 and random n up to 4096 (600 quick), polynomial integrands of degree 0..6 (Horner), limits in +-1e3 incl. a=b, a>b, special values; romberg: every level budget 0..=10 (13 thorough), 14..20 sampled, eps 0 / 1e-3..1e-12 / uniform / special, degree 0..9, early-stop stream incl. successive estimates of opposite sign; quad5: all monomials 0..21 on [-1,1], [0,1] and a random interval, random polynomials to degree 19; six libm integrands through the recorded table; sampled trapezoid: three calling forms at every length 0..=24 (40 thorough), long arrays, malformed stream (length mismatch, x and dx both given, empty). Non-trivial = n >= 2 panels / >= 2 levels with degree >= 1, libm integrands, >= 3 samples or a panic; distinct by hash of the case term");
+             "trapz: every n in 0..=40 and random n up to 4096 (600 quick), polynomial integrands of degree 0..6 (Horner), limits in +-1e3 incl. a=b, a>b, special values; romberg: every level budget 0..=10 (13 thorough), 14..20 sampled, eps 0 / 1e-3..1e-12 / uniform / special, degree 0..9, early-stop stream incl. successive estimates of opposite sign; quad5: all monomials 0..21 on [-1,1], [0,1] and a random interval, random polynomials to degree 19; six libm integrands through the recorded table; sampled trapezoid: three calling forms at every length 0..=24 (40 thorough), long arrays, malformed stream (length mismatch, x and dx both given, empty); at every tier the ends of the stated ranges: end points exactly +-1e3 in both orientations, a one-ulp interval, n = 1 / 4095 / 4096, every Romberg budget 11..20, monomials 10..19 under Romberg, samples of length 2 and 10000 with abscissae over the whole range, descending, repeated, all equal. Non-trivial = n >= 2 panels / >= 2 levels with degree >= 1, libm integrands, >= 3 samples or a panic; distinct by hash of the case term");
 }
 
 // ---------------------------------------------------------------------------------------------------------
@@ -482,6 +535,249 @@ pub fn oracle(tier: &str, seed: u64) -> (u64, Vec<Finding>) {
             crumb(&format!("trapezoid with len(y) = {}, len(x) = {} / with both x and dx", len, lx));
             if catch(|| trapezoid(&y, Some(&xb), None)).is_ok() { fail("trapezoid:length-mismatch-accepted", 1.0, "returned a value for x and y of different lengths".into(), format!("len(y) = {}, len(x) = {}", len, lx)); }
             if catch(|| trapezoid(&y, Some(&x), Some(1.0))).is_ok() { fail("trapezoid:x-and-dx-accepted", 1.0, "returned a value although both x and dx were given".into(), format!("len(y) = {}", len)); }
+        }
+    }
+
+    // =====================================================================================================
+    // 7. coverage audit: the same demands (same classes, same allowances) at the places of the quantifier the sections above
+    //    do not reach.  Own random stream, so that sections 1..6 evaluate exactly what they evaluated before.
+    let mut r = Rng::new(seed ^ 0xA0D17_C07);
+    let next_down = |x: f64| if x > 0.0 { f64::from_bits(x.to_bits() - 1) } else { f64::from_bits(x.to_bits() + 1) };
+    // end points ON the boundary of the stated range, both orientations, the whole range, a one-ulp interval at the boundary, a = b
+    let corners: Vec<(f64, f64)> = vec![(-1e3, 1e3), (1e3, -1e3), (0.0, 1.0), (999.0, 1e3), (-999.5, -1e3), (1e3, next_down(1e3)), (-1e3, -1e3), (1e3, 0.0)];
+
+    // ---- 7a. Romberg, eps = 0: EVERY level budget 1..20 x EVERY monomial of degree <= min(2k-1, 19) (sections 3 stops at k = 10 / 12),
+    //          on the corner intervals and a random one; plus random polynomials of the full admissible degree
+    for k in 1..=20usize {
+        let dmax = (2 * k - 1).min(19);
+        // 2^(k-1) nodes per call: all corners up to k = 13, fewer above at the quick tier
+        let nint = if thorough || k <= 13 { corners.len() } else if k <= 17 { 3 } else { 2 };
+        for d in 0..=dmax + 1 {
+            let mono = d <= dmax;
+            let dd = if mono { d } else { dmax };
+            let p = if mono { let mut p = vec![0.0; d + 1]; p[d] = 1.0; p } else { coeffs(&mut r, dd) };
+            let mut ivs: Vec<(f64, f64)> = corners[..nint].to_vec();
+            ivs.push((endpoint(&mut r), endpoint(&mut r)));
+            for (a, b) in ivs {
+                let want = poly_int(&p, a, b); let sc = poly_scale(&p, a, b);
+                tried += 1;
+                let input = format!("romberg(polynomial coefficients {} (degree {}), a = {:e}, b = {:e}, eps = 0, nmax = {})", json_floats(&p), dd, a, b, k);
+                crumb(&input);
+                match catch(|| romberg(|x| horner(&p, x), a, b, 0.0, k)) {
+                    Err(e) => fail("romberg:panics", 1.0, format!("panicked: {}", e), input),
+                    Ok(g) => { let tol = 1e-10 * sc + f64::MIN_POSITIVE;
+                               if !((g - want).abs() <= tol) { fail("romberg:polynomial-not-exact", (g - want).abs() / tol, format!("returned {:e}, exact integral {:e} (difference {:e}, allowance {:e})", g, want, g - want, tol), input.clone()); }
+                               if a == b && g != 0.0 { fail("romberg:a=b-nonzero", 1.0, format!("rule over [a,a] = {:e}", g), input); } }
+                }
+            }
+        }
+    }
+
+    // ---- 7b. linearity / sign change / empty interval of Romberg at level budgets 9..20 (section 2 draws 2..8), eps = 0
+    for it in 0..(if thorough { 600 } else { 36 }) {
+        let k = 9 + it % 12;
+        let df = r.below(6) as usize; let dg = r.below(6) as usize;
+        let (pf, pg) = (coeffs(&mut r, df), coeffs(&mut r, dg));
+        let (al, be) = (r.small_int(4), r.uniform(-2.0, 2.0));
+        let (a, b) = if it % 5 == 0 { corners[(it / 5) % corners.len()] } else { (endpoint(&mut r), endpoint(&mut r)) };
+        let f = |x: f64| horner(&pf, x); let g = |x: f64| horner(&pg, x);
+        let h = |x: f64| al * horner(&pf, x) + be * horner(&pg, x);
+        let sc = al.abs() * poly_scale(&pf, a, b) + be.abs() * poly_scale(&pg, a, b);
+        let rel = 64.0 * ((1u64 << k) as f64 + 8.0) * eps;
+        let input = format!("romberg (n = 0, levels = {}, eps = 0) f = {} g = {} alpha = {:e} beta = {:e} a = {:e} b = {:e}", k, json_floats(&pf), json_floats(&pg), al, be, a, b);
+        tried += 3;
+        crumb(&input);
+        match catch(|| (romberg(&f, a, b, 0.0, k), romberg(&g, a, b, 0.0, k), romberg(&h, a, b, 0.0, k), romberg(&h, b, a, 0.0, k), romberg(&h, a, a, 0.0, k))) {
+            Err(e) => fail("romberg:panics", 1.0, format!("panicked: {}", e), input),
+            Ok((rf, rg, rh, rhs, rz)) => {
+                let tol = rel * sc + f64::MIN_POSITIVE;
+                if !((rh - (al * rf + be * rg)).abs() <= tol) { fail("romberg:not-linear", (rh - (al * rf + be * rg)).abs() / tol, format!("rule(alpha f + beta g) = {:e} but alpha rule(f) + beta rule(g) = {:e}", rh, al * rf + be * rg), input.clone()); }
+                if !((rh + rhs).abs() <= tol) { fail("romberg:no-sign-change", (rh + rhs).abs() / tol, format!("rule over [a,b] = {:e}, over [b,a] = {:e}: sum should vanish", rh, rhs), input.clone()); }
+                if rz != 0.0 { fail("romberg:a=b-nonzero", 1.0, format!("rule over [a,a] = {:e}", rz), input.clone()); }
+            }
+        }
+    }
+
+    // ---- 7c. trapz (affine exactness, sign change, a = b) and quad5 (monomials 0..19) ON the corners: first / last panel count, whole range
+    for &(a, b) in corners.iter() {
+        for &n in [1usize, 2, 3, 4095, 4096].iter() {
+            for rep in 0..2 {
+                let (c, d) = if rep == 0 { (r.small_int(9), r.small_int(9)) } else { (r.uniform(-3.0, 3.0), r.uniform(-3.0, 3.0)) };
+                let p = [c, d];
+                let input = format!("trapz(f(x) = {:e} + {:e}*x, a = {:e}, b = {:e}, n = {})", c, d, a, b, n);
+                crumb(&input);
+                tried += 2;
+                match catch(|| (trapz(|x| horner(&p, x), a, b, n), trapz(|x| horner(&p, x), b, a, n))) {
+                    Err(e) => fail("trapz:panics", 1.0, format!("panicked: {}", e), input),
+                    Ok((g, gs)) => {
+                        let want = poly_int(&p, a, b);
+                        let tol = 4.0 * (n as f64 + 8.0) * eps * poly_scale(&p, a, b);
+                        if !((g - want).abs() <= tol) { fail("trapz:affine-not-exact", (g - want).abs() / (tol + f64::MIN_POSITIVE), format!("returned {:e}, the integral of the affine integrand is {:e} (difference {:e}, rounding allowance {:e})", g, want, g - want, tol), input.clone()); }
+                        if !((g + gs).abs() <= 2.0 * tol + f64::MIN_POSITIVE) { fail("trapz:no-sign-change", (g + gs).abs() / (2.0 * tol + f64::MIN_POSITIVE), format!("rule over [a,b] = {:e}, over [b,a] = {:e}: sum should vanish", g, gs), input.clone()); }
+                        if a == b && g != 0.0 { fail("trapz:a=b-nonzero", 1.0, format!("returned {:e} for an empty interval", g), input); }
+                    }
+                }
+            }
+        }
+        for d in 0..=19usize {
+            let mut p = vec![0.0; d + 1]; p[d] = 1.0;
+            let want = poly_int(&p, a, b); let sc = poly_scale(&p, a, b);
+            tried += 2;
+            let input = format!("quad5(polynomial coefficients {} (degree {}), a = {:e}, b = {:e})", json_floats(&p), d, a, b);
+            crumb(&input);
+            match catch(|| (quad5(|x| horner(&p, x), a, b), quad5(|x| horner(&p, x), b, a))) {
+                Err(e) => fail("quad5:panics", 1.0, format!("panicked: {}", e), input),
+                Ok((g, gs)) => { let tol = 1e-12 * sc + f64::MIN_POSITIVE;
+                    if !((g - want).abs() <= tol) { fail(if d <= 9 { "quad5:polynomial-not-exact" } else { "quad5:polynomial-not-exact-deg10..19" }, (g - want).abs() / tol, format!("returned {:e}, exact integral {:e} (difference {:e}, allowance {:e})", g, want, g - want, tol), input.clone()); }
+                    if !((g + gs).abs() <= 256.0 * eps * sc + f64::MIN_POSITIVE) { fail("quad5:no-sign-change", (g + gs).abs() / (256.0 * eps * sc + f64::MIN_POSITIVE), format!("rule over [a,b] = {:e}, over [b,a] = {:e}: sum should vanish", g, gs), input.clone()); }
+                    if a == b && g != 0.0 { fail("quad5:a=b-nonzero", 1.0, format!("rule over [a,a] = {:e}", g), input); } }
+            }
+        }
+    }
+
+    // ---- 7d. smooth catalogue: the WHOLE stated domain of every entry in both orientations (section 4 draws interior sub-intervals),
+    //          first / last panel counts, and the ends of the tolerance range: eps = 0, below rounding, log-uniform in 1e-12..1e-3, exactly 1e-3
+    let mut smooth_case = |s: &Smooth, a: f64, b: f64, n: usize, tol_req: f64, nmax: usize, tried: &mut u64| {
+        let want = (s.anti)(b) - (s.anti)(a);
+        let fmax = (0..=64).map(|i| (s.f)(a + (b - a) * i as f64 / 64.0).abs()).fold(0.0, f64::max);
+        let amax = (s.anti)(a).abs().max((s.anti)(b).abs());
+        let h = (b - a).abs() / n as f64;
+        let bound = (b - a).abs() * h * h / 12.0 * (s.d2max)(a, b);
+        let round = 8.0 * (n as f64 + 8.0) * eps * (b - a).abs() * fmax + 64.0 * eps * amax;
+        *tried += 1;
+        let input = format!("trapz(f = {}, a = {:e}, b = {:e}, n = {})", s.name, a, b, n);
+        crumb(&input);
+        match catch(|| trapz(s.f, a, b, n)) {
+            Err(e) => fail("trapz:panics", 1.0, format!("panicked: {}", e), input),
+            Ok(g) => if !((g - want).abs() <= bound + round) { fail("trapz:error-bound-exceeded", (g - want).abs() / (bound + round), format!("returned {:e}, integral {:e}: error {:e} exceeds (b-a)h^2/12 max|f''| = {:e} (+ rounding {:e})", g, want, (g - want).abs(), bound, round), input) },
+        }
+        *tried += 1;
+        let input = format!("romberg(f = {}, a = {:e}, b = {:e}, eps = {:e}, nmax = {})", s.name, a, b, tol_req, nmax);
+        crumb(&input);
+        match catch(|| romberg(s.f, a, b, tol_req, nmax)) {
+            Err(e) => fail("romberg:panics", 1.0, format!("panicked: {}", e), input),
+            Ok(g) => { let allow = 100.0 * tol_req * want.abs().max(1.0) + 1e-11 * ((b - a).abs() * fmax + amax);
+                       if !((g - want).abs() <= allow) {
+                           let first = catch(|| romberg(s.f, a, b, tol_req, 3)).map(|r3| r3 == g).unwrap_or(false);
+                           let class = if first { "romberg:first-convergence-test-aliased" } else { "romberg:error-far-above-tolerance" };
+                           fail(class, (g - want).abs() / allow, format!("returned {:e}, integral {:e}: error {:e} against requested tolerance {:e}{}", g, want, (g - want).abs(), tol_req,
+                                if first { " (the 3-node and 5-node estimates agreed to the tolerance by aliasing, so the run stopped at its first test)" } else { "" }), input); } }
+        }
+    };
+    let eps_ends = [0.0, 1e-16, 1e-14, 1e-12, 1e-3];
+    for (i, s) in cat.iter().enumerate() {
+        for (j, &n) in [1usize, 2, 4096].iter().enumerate() {
+            let (a, b) = if j % 2 == 0 { (s.lo, s.hi) } else { (s.hi, s.lo) };
+            smooth_case(s, a, b, n, eps_ends[(i + j) % eps_ends.len()], 12 + (i + 3 * j) % 9, &mut tried);
+        }
+    }
+    for it in 0..(if thorough { 3000 } else { 120 }) {
+        let s = &cat[it % cat.len()];
+        let (a, b) = match it % 4 { 0 => (s.lo, r.uniform(s.lo, s.hi)), 1 => (r.uniform(s.lo, s.hi), s.hi), _ => (r.uniform(s.lo, s.hi), r.uniform(s.lo, s.hi)) };
+        let tol_req = match it % 3 { 0 => eps_ends[(it / 3) % eps_ends.len()], _ => 10f64.powf(r.uniform(-12.0, -3.0)) };
+        let n = *r.pick(&[1usize, 2, 3, 4095, 4096]);
+        smooth_case(s, a, b, n, tol_req, 12 + r.below(9) as usize, &mut tried);
+    }
+
+    // ---- 7e. sampled trapezoid: first and last admissible length (2, 10^4) at every tier, abscissae over the whole range +-1e3, uniform abscissae
+    //          passed as x (must agree with the dx form), descending abscissae, repeated and all-equal abscissae
+    let lens: Vec<usize> = if thorough { vec![2, 2, 3, 3, 4, 9999, 10000, 10000, 10000, 10000] } else { vec![2, 2, 3, 4, 10000, 10000] };
+    for rep in 0..(if thorough { 40 } else { 4 }) {
+        for (li, &len) in lens.iter().enumerate() {
+            let kind = (rep + li) % 6;
+            let integer = (rep + li) % 2 == 1 && kind != 1 && kind != 5;
+            let y: Vec<f64> = (0..len).map(|_| if integer { 2.0 * r.small_int(50) } else { r.uniform(-5.0, 5.0) }).collect();
+            let d = if integer { r.small_int(8) } else { r.uniform(-2.0, 2.0) * 0.1 };
+            let x0 = if integer { r.small_int(500) } else { r.uniform(-1e3, 0.0) };
+            let mut x: Vec<f64> = match kind {
+                0 => (0..len).map(|_| if integer { r.small_int(1000) } else { r.uniform(-1e3, 1e3) }).collect(),            // whole range, sorted below
+                1 => (0..len).map(|i| x0 + i as f64 * d).collect(),                                                       // uniform grid given as x
+                2 => (0..len).map(|_| if integer { r.small_int(1000) } else { r.uniform(-1e3, 1e3) }).collect(),            // descending (sorted, reversed)
+                3 => vec![x0; len],                                                                                       // all abscissae equal: integral 0
+                4 => (0..len).map(|i| if integer { (i / 3) as f64 - 1000.0 } else { -1e3 + 2e3 * ((i / 2) as f64) / len as f64 }).collect(), // every knot repeated
+                _ => { let mut v: Vec<f64> = (0..len).map(|_| r.uniform(-1e3, 1e3)).collect(); v[0] = -1e3; v[len - 1] = 1e3; v } // end points on the boundary
+            };
+            if kind != 1 && kind != 3 { x.sort_by(|p, q| p.partial_cmp(q).unwrap()); }
+            if kind == 2 { x.reverse(); }
+            let mut acc = DD::from(0.0); let mut mag = 0.0;
+            for i in 1..len { let t = DD::from(y[i]).add(DD::from(y[i - 1])).mul(DD::from(x[i]).add(DD::from(-x[i - 1]))); acc = acc.add(DD(t.0 / 2.0, t.1 / 2.0)); mag += (t.0 / 2.0).abs(); }
+            let want = acc.val();
+            let short = |v: &[f64]| if v.len() <= 12 { json_floats(v) } else { format!("{} values starting {}", v.len(), json_floats(&v[..6])) };
+            let input = format!("trapezoid(y = {}, x = {}, dx = None)", short(&y), short(&x));
+            crumb(&input);
+            tried += 1;
+            match catch(|| trapezoid(&y, Some(&x), None)) {
+                Err(e) => fail("trapezoid:panics-on-valid-input", 1.0, format!("panicked: {}", e), input),
+                Ok(g) => {
+                    // exact when every operation is: integer abscissae, even integer ordinates
+                    let tol = if integer { 0.0 } else { 2.0 * (len as f64 + 4.0) * eps * mag };
+                    if !((g - want).abs() <= tol) { fail("trapezoid:not-sum-of-chord-integrals", (g - want).abs() / (tol + f64::MIN_POSITIVE), format!("returned {:e}, the piecewise-linear interpolant integrates to {:e}", g, want), input.clone()); }
+                    if kind == 3 && g != 0.0 { fail("trapezoid:not-sum-of-chord-integrals", f64::INFINITY, format!("returned {:e} although all abscissae coincide (every chord has width 0)", g), input.clone()); }
+                    if kind == 1 {
+                        // the same samples through the constant-spacing form: sum (y_i + y_{i-1})/2 * d, against the x form up to the rounding of x0 + i d
+                        tried += 1;
+                        let xm = x0.abs().max((x0 + len as f64 * d).abs());
+                        let ysum: f64 = (1..len).map(|i| ((y[i] + y[i - 1]) / 2.0).abs()).sum();
+                        match catch(|| trapezoid(&y, None, Some(d))) {
+                            Err(e) => fail("trapezoid:panics-on-valid-input", 1.0, format!("panicked: {}", e), format!("trapezoid(y = {}, x = None, dx = {:e})", short(&y), d)),
+                            Ok(gd) => { let tol2 = tol + 2.0 * (len as f64 + 4.0) * eps * mag + 4.0 * eps * xm * ysum;
+                                        if !((g - gd).abs() <= tol2) { fail("trapezoid:not-sum-of-chord-integrals", (g - gd).abs() / (tol2 + f64::MIN_POSITIVE), format!("x form returned {:e}, the dx form {:e} on the uniform grid x0 = {:e}, dx = {:e}", g, gd, x0, d), input); } }
+                        }
+                    }
+                }
+            }
+        }
+    }
+
+    // ---- 7f. level budgets 2..11 with a positive tolerance on the smooth catalogue (section 4 draws budgets 12..20 only).  With so few levels the
+    //          budget can run out before the tolerance is met, and then nothing is promised; the demand "error of the order of eps" is made exactly
+    //          when the run STOPPED EARLY, i.e. reported convergence (its value differs from the value of the same budget with eps = 0)
+    for it in 0..(if thorough { 6000 } else { 400 }) {
+        let s = &cat[it % cat.len()];
+        let (a, b) = match it % 5 { 0 => (s.lo, s.hi), 1 => (s.hi, s.lo), _ => (r.uniform(s.lo, s.hi), r.uniform(s.lo, s.hi)) };
+        let nmax = 2 + (it / cat.len()) % 10;
+        let tol_req = match it % 3 { 0 => *r.pick(&[1e-3, 1e-5, 1e-8, 1e-10]), _ => 10f64.powf(r.uniform(-12.0, -3.0)) };
+        let want = (s.anti)(b) - (s.anti)(a);
+        let fmax = (0..=64).map(|i| (s.f)(a + (b - a) * i as f64 / 64.0).abs()).fold(0.0, f64::max);
+        let amax = (s.anti)(a).abs().max((s.anti)(b).abs());
+        tried += 1;
+        let input = format!("romberg(f = {}, a = {:e}, b = {:e}, eps = {:e}, nmax = {})", s.name, a, b, tol_req, nmax);
+        crumb(&input);
+        match catch(|| (romberg(s.f, a, b, tol_req, nmax), romberg(s.f, a, b, 0.0, nmax))) {
+            Err(e) => fail("romberg:panics", 1.0, format!("panicked: {}", e), input),
+            Ok((g, full)) => { let allow = 100.0 * tol_req * want.abs().max(1.0) + 1e-11 * ((b - a).abs() * fmax + amax);
+                       if g != full && !((g - want).abs() <= allow) {
+                           let first = catch(|| romberg(s.f, a, b, tol_req, 3)).map(|r3| r3 == g).unwrap_or(false);
+                           let class = if first { "romberg:first-convergence-test-aliased" } else { "romberg:error-far-above-tolerance" };
+                           fail(class, (g - want).abs() / allow, format!("returned {:e} before the budget was used up (the full budget gives {:e}), integral {:e}: error {:e} against requested tolerance {:e}{}", g, full, want, (g - want).abs(), tol_req,
+                                if first { " (the 3-node and 5-node estimates agreed to the tolerance by aliasing, so the run stopped at its first test)" } else { "" }), input); } }
+        }
+    }
+
+    // ---- 7g. random polynomials and monomials (degree 0..19) with a POSITIVE tolerance and every budget 2..20 (sections 3 / 7a use eps = 0, 3a / 5 two
+    //          special families): polynomials are smooth integrands, so a run that stopped early owes an error of the order of eps
+    for it in 0..(if thorough { 20000 } else { 1500 }) {
+        let nmax = 2 + it % 19;
+        let d = r.below(20) as usize;
+        let p = if it % 4 == 0 { let mut p = vec![0.0; d + 1]; p[d] = 1.0; p } else { coeffs(&mut r, d) };
+        let (a, b) = if it % 7 == 0 { corners[(it / 7) % corners.len()] } else { (endpoint(&mut r), endpoint(&mut r)) };
+        let tol_req = match it % 3 { 0 => *r.pick(&[1e-3, 1e-5, 1e-8, 1e-10]), _ => 10f64.powf(r.uniform(-12.0, -3.0)) };
+        let want = poly_int(&p, a, b); let sc = poly_scale(&p, a, b);
+        tried += 3;
+        let input = format!("romberg(polynomial coefficients {} (degree {}), a = {:e}, b = {:e}, eps = {:e}, nmax = {})", json_floats(&p), d, a, b, tol_req, nmax);
+        crumb(&input);
+        match catch(|| (romberg(|x| horner(&p, x), a, b, tol_req, nmax), romberg(|x| horner(&p, x), a, b, 0.0, nmax), romberg(|x| horner(&p, x), b, a, tol_req, nmax))) {
+            Err(e) => fail("romberg:panics", 1.0, format!("panicked: {}", e), input),
+            Ok((g, full, gs)) => { let allow = 100.0 * tol_req * want.abs().max(1.0) + 1e-10 * sc;
+                       // empty interval and swapped limits with a positive tolerance (section 2 / 7b use eps = 0): the stopping test sees |differences| and
+                       // |estimates| only, so it decides alike on [a,b] and [b,a]; the two values may differ by rounding, or by one level of an accurate run
+                       if a == b && g != 0.0 { fail("romberg:a=b-nonzero", 1.0, format!("rule over [a,a] = {:e}", g), input.clone()); }
+                       if (g != full || 2 * nmax > d) && !((g + gs).abs() <= 2.0 * allow + f64::MIN_POSITIVE) { fail("romberg:no-sign-change", (g + gs).abs() / (2.0 * allow + f64::MIN_POSITIVE), format!("rule over [a,b] = {:e}, over [b,a] = {:e} (eps = {:e}): sum should vanish", g, gs, tol_req), input.clone()); }
+                       if g != full && !((g - want).abs() <= allow) {
+                           let first = catch(|| romberg(|x| horner(&p, x), a, b, tol_req, 3)).map(|r3| r3 == g).unwrap_or(false);
+                           let class = if first { "romberg:first-convergence-test-aliased" } else { "romberg:error-far-above-tolerance" };
+                           fail(class, (g - want).abs() / allow, format!("returned {:e} before the budget was used up (the full budget gives {:e}), integral {:e}: error {:e} against requested tolerance {:e}{}", g, full, want, (g - want).abs(), tol_req,
+                                if first { " (the 3-node and 5-node estimates agreed to the tolerance by aliasing, so the run stopped at its first test)" } else { "" }), input); } }
         }
     }
 
